@@ -17,3 +17,19 @@ package key
 //@     invariant (keys == nil || fresh(arr(keys))) && (comments == nil || fresh(arr(comments)))
 //@     invariant forall(i, 0 <= i && i < len(keys),
 //@       exists(c, p0 <= c && c < calls(ssh.ParseAuthorizedKey), keys[i] == ret(ssh.ParseAuthorizedKey, c, 0) && comments[i] == ret(ssh.ParseAuthorizedKey, c, 1) && keys[i] != nil))
+
+//@ # ---------------------------------------------------------------- C10: casts keep the blob
+//@ func CastSSHPublicKeyToCertificate(key)
+//@   requires key != nil
+//@   ensures err != nil ==> result0 == nil
+//@   ensures [certificates-only] err == nil ==> (result0 != nil && certBlob(blobid(key)))
+//@   ensures [same-blob] err == nil ==> certid(result0) == blobid(key)
+//@   ensures !certBlob(blobid(key)) ==> err != nil
+//@ # blob identity of a *ssh.Certificate (as a PublicKey)
+//@ ghost func certid(c *ssh.Certificate) int = blobid(asKey(c))
+
+//@ func CastSSHPublicKeyToAgentKey(key)
+//@   requires key != nil
+//@   ensures result != nil
+//@   ensures typeof(key) == *agent.Key ==> result == key.(*agent.Key)
+//@   ensures typeof(key) != *agent.Key ==> (fresh(result) && contentOf(elems(result.Blob), off(result.Blob), len(result.Blob)) == blobid(key))
